@@ -56,7 +56,7 @@ inductive Trans (c : Cfg) (s : State) (t : Tid) : State → Prop
   | wSetupId : (s.loc t).pc = .wSetupId →
       Trans c s t (s.setLoc t { s.loc t with pc := .wSetupCopy, vid := s.lastId + 1 })
   | wSetupCopy : (s.loc t).pc = .wSetupCopy →
-      Trans c s t (s.setLoc t { s.loc t with pc := .wReturn, snap := s.nodes })
+      Trans c s t (s.setLoc t { s.loc t with pc := .wReturn, snap := if c.repl t then [] else s.nodes })
   | wReturn : (s.loc t).pc = .wReturn →
       Trans c s t (s.setLoc t { s.loc t with pc := .wBody })
   | wBodyC : (s.loc t).pc = .wBody → c.role t = .writer true →
